@@ -25,7 +25,7 @@ ASSUMPTIONS = [
     "cause/class matching only where unambiguous: live fixture + single deny => value or AccessDenied; vanish-only => value or NoSuchProcess",
     "faults are placed on per-process accesses (/proc/<pid>/..., kill, native per-pid calls), not on system-wide files",
 ]
-REQUIRED_COUNTERS = ["faults_fired", "post_gone_calls"]
+REQUIRED_COUNTERS = ["faults_fired", "post_gone_calls", "shim_differential_getters_compared"]
 SHARD_TIMEOUT = 1500
 
 ATTRS_ITER = ["name", "ppid", "cpu_times", "open_files", "cmdline", "memory_full_info", "threads", "exe"]
@@ -321,9 +321,101 @@ def cases_for(opname, fixture, tier):
     return plans, clean, n
 
 
+def run_shimdiff(acc):
+    """Shim self-validation: real /proc/<pid>/* of a sleeping child is snapshotted byte-for-byte into the virtual tree;
+    every getter must answer through the shim exactly as it does on the live kernel. A disagreement is a harness
+    bug (INCONCLUSIVE), never a psutil violation."""
+    import os
+    import subprocess
+    import sys
+    import time
+    env = setup()
+    ps, vkernel = env["ps"], env["vkernel"]
+    code = ("import threading, time, socket, sys\n"
+            "f = open(sys.argv[1], 'a'); s = socket.socket(); s.bind(('127.0.0.1', 0)); s.listen(1)\n"
+            "t = threading.Thread(target=time.sleep, args=(1000,), daemon=True); t.start()\n"
+            "print('ready', flush=True); time.sleep(1000)\n")
+    tmpf = os.path.join(env["fixtures"].FX_DIR, "shimdiff.txt")
+    child = subprocess.Popen([sys.executable, "-c", code, tmpf], stdout=subprocess.PIPE)
+    try:
+        child.stdout.readline()
+        time.sleep(0.3)
+        pid = child.pid
+        fs = vkernel.MemFS()
+        real = f"/proc/{pid}"
+
+        def grab(rel):
+            try:
+                with vkernel.real_open(os.path.join(real, rel), "rb") as f:
+                    fs.put(f"{pid}/{rel}", f.read())
+            except OSError:
+                missing.add(rel)
+        missing = set()
+        for rel in ("stat", "status", "cmdline", "environ", "statm", "io", "smaps", "smaps_rollup"):
+            grab(rel)
+        for link in ("exe", "cwd"):
+            fs.put(f"{pid}/{link}", vkernel.L(os.readlink(os.path.join(real, link))))
+        for fd in os.listdir(os.path.join(real, "fd")):
+            try:
+                fs.put(f"{pid}/fd/{fd}", vkernel.L(os.readlink(os.path.join(real, "fd", fd))))
+                with vkernel.real_open(os.path.join(real, "fdinfo", fd), "rb") as f:
+                    fs.put(f"{pid}/fdinfo/{fd}", f.read())
+            except OSError:
+                pass
+        for tid in os.listdir(os.path.join(real, "task")):
+            with vkernel.real_open(os.path.join(real, "task", tid, "stat"), "rb") as f:
+                fs.put(f"{pid}/task/{tid}/stat", f.read())
+        for rel in ("stat", "meminfo"):
+            with vkernel.real_open("/proc/" + rel, "rb") as f:
+                fs.put(rel, f.read())
+        getters = ["name", "exe", "cmdline", "status", "create_time", "cwd", "uids", "gids", "terminal", "num_fds", "io_counters",
+                   "environ", "num_ctx_switches", "num_threads", "threads", "cpu_times", "memory_info", "memory_full_info",
+                   "memory_maps", "open_files", "ppid", "cpu_num"]
+
+        def collect(p):
+            out = {}
+            for g in getters:
+                try:
+                    out[g] = repr(getattr(p, g)())
+                except Exception as e:  # noqa: BLE001
+                    out[g] = "EXC " + type(e).__name__
+            return out
+        old = ps.PROCFS_PATH
+        ps.PROCFS_PATH = "/proc"
+        try:
+            ps.boot_time()
+            live1 = collect(ps.Process(pid))
+        finally:
+            ps.PROCFS_PATH = old
+        vk = vkernel.VK()
+        vk.mount("/vproc", fs)
+        with vk:
+            shim = collect(ps.Process(pid))
+        ps.PROCFS_PATH = "/proc"
+        try:
+            live2 = collect(ps.Process(pid))
+            ps.PROCFS_PATH = old
+            t, _ = env["fixtures"].rich_table()
+            v2 = vkernel.VK()
+            v2.table = t
+            v2.mount("/vproc", t)
+            with v2:
+                ps.boot_time()
+        finally:
+            ps.PROCFS_PATH = old
+        bad = {g: (live1[g], shim[g], live2[g]) for g in getters if shim[g] != live1[g] and shim[g] != live2[g]}
+        acc.count("shim_differential_getters_compared", len(getters))
+        if bad:
+            acc.inconclusive = f"shim self-validation failed (harness bug, not a psutil verdict): {bad}"
+        acc.case(dict(kind="shimdiff"), False, ())
+    finally:
+        child.kill()
+        child.wait()
+
+
 def plan(tier, seed):
     names = [n for n, _ in ops_names()]
-    shards = []
+    shards = [dict(kind="shimdiff")]
     for fixture in ("live", "zombie"):
         for chunk in range(0, len(names), 4):
             shards.append(dict(kind="enum", fixture=fixture, ops=names[chunk:chunk + 4], tier=tier))
@@ -364,8 +456,13 @@ def run_shard(shard):
                 acc.case(case, fired, viols, sample=dict(case, outcome=str(out["outcome"])[:160],
                                                          fired=[list(f) for f in out["fired"]]))
         acc.exhaustive = True
+    elif shard["kind"] == "shimdiff":
+        run_shimdiff(acc)
     elif shard["kind"] == "cases":
         for case in shard["cases"]:
+            if case.get("kind") == "shimdiff":
+                run_shimdiff(acc)
+                continue
             pl = [tuple(x) for x in case["plan"]]
             out0, pid = run_op(case["op"], case["fixture"], [])
             clean_val = out0["outcome"][1] if out0["outcome"][0] == "value" else None
